@@ -209,6 +209,12 @@ where
     fn drop(&mut self) {
         if !self.committed {
             // Revert: Remove our intent from pending_intents
+            #[cfg(feature = "verif-hooks")]
+            crate::verif::before_mutex(
+                "intent_guard_drop",
+                crate::verif::LockId::Intents,
+                &self.index.pending_intents,
+            );
             let mut intents = self.index.pending_intents.lock();
 
             if let Some(current_hash) = intents.get(&self.key)
@@ -247,6 +253,8 @@ where
         let mut replayed_count = 0u64;
         wal_manager.replay_and_prepare(checkpoint_version, |op| {
             replayed_count += 1;
+            #[cfg(feature = "verif-hooks")]
+            crate::verif::before_write("load_replay", crate::verif::LockId::State, &state);
             let mut guard = state.write();
             let _ = guard.apply_logical_op(&op).expect("Index is corrupted");
         })?;
@@ -269,7 +277,11 @@ where
     pub fn checkpoint(&self, reason: CheckpointReason) -> Result<(), IndexError> {
         tracing::info!(?reason, "Starting checkpoint operation.");
 
+        #[cfg(feature = "verif-hooks")]
+        crate::verif::before_write("checkpoint", crate::verif::LockId::State, &self.state);
         let mut snapshot = self.state.write();
+        #[cfg(feature = "verif-hooks")]
+        crate::verif::before_mutex("checkpoint", crate::verif::LockId::Wal, &self.wal);
         let mut wal_guard = self.wal.lock();
 
         self.checkpoint_inner(reason, &mut wal_guard, &mut *snapshot)
@@ -280,6 +292,12 @@ where
         key: K,
         meta: IntentMeta,
     ) -> Result<IntentGuard<'_, K>, IndexError> {
+        #[cfg(feature = "verif-hooks")]
+        crate::verif::before_mutex(
+            "put_or_register",
+            crate::verif::LockId::Intents,
+            &self.pending_intents,
+        );
         let mut intents = self.pending_intents.lock();
 
         // Check if there was a previous intent for this key
@@ -306,10 +324,20 @@ where
         delete_fn: &crate::types::DeleteBlobCallFn,
     ) -> Result<(), IndexError> {
         let logical_op = WalOp::Put { key: key.clone(), hash, size };
+        #[cfg(feature = "verif-hooks")]
+        crate::verif::before_mutex(
+            "put_or_register",
+            crate::verif::LockId::Intents,
+            &self.pending_intents,
+        );
         let mut intents = self.pending_intents.lock();
 
         let (mut unreferenced_from_op, rolled_over) = {
+            #[cfg(feature = "verif-hooks")]
+            crate::verif::before_write("apply_op", crate::verif::LockId::State, &self.state);
             let mut state = self.state.write();
+            #[cfg(feature = "verif-hooks")]
+            crate::verif::before_mutex("apply_op", crate::verif::LockId::Wal, &self.wal);
             let mut wal = self.wal.lock();
             let (hashes, _append_info, rolled) =
                 Self::apply_wal_op_unsafe(&mut state, &mut wal, &logical_op)?;
@@ -330,7 +358,11 @@ where
         drop(intents);
 
         if rolled_over {
+            #[cfg(feature = "verif-hooks")]
+            crate::verif::before_write("apply_op", crate::verif::LockId::State, &self.state);
             let mut state = self.state.write();
+            #[cfg(feature = "verif-hooks")]
+            crate::verif::before_mutex("apply_op", crate::verif::LockId::Wal, &self.wal);
             let mut wal = self.wal.lock();
             self.checkpoint_inner(CheckpointReason::SegmentRollover, &mut wal, &mut state)?;
         }
@@ -344,10 +376,20 @@ where
         delete_fn: &crate::types::DeleteBlobCallFn,
     ) -> Result<(), IndexError> {
         let logical_op = WalOp::Remove { keys };
+        #[cfg(feature = "verif-hooks")]
+        crate::verif::before_mutex(
+            "apply_remove_op",
+            crate::verif::LockId::Intents,
+            &self.pending_intents,
+        );
         let intents = self.pending_intents.lock();
 
         let (mut unreferenced_from_op, rolled_over) = {
+            #[cfg(feature = "verif-hooks")]
+            crate::verif::before_write("apply_op", crate::verif::LockId::State, &self.state);
             let mut state = self.state.write();
+            #[cfg(feature = "verif-hooks")]
+            crate::verif::before_mutex("apply_op", crate::verif::LockId::Wal, &self.wal);
             let mut wal = self.wal.lock();
             let (hashes, _append_info, rolled) =
                 Self::apply_wal_op_unsafe(&mut state, &mut wal, &logical_op)?;
@@ -366,7 +408,11 @@ where
         drop(intents);
 
         if rolled_over {
+            #[cfg(feature = "verif-hooks")]
+            crate::verif::before_write("apply_op", crate::verif::LockId::State, &self.state);
             let mut state = self.state.write();
+            #[cfg(feature = "verif-hooks")]
+            crate::verif::before_mutex("apply_op", crate::verif::LockId::Wal, &self.wal);
             let mut wal = self.wal.lock();
             self.checkpoint_inner(CheckpointReason::SegmentRollover, &mut wal, &mut state)?;
         }
@@ -440,6 +486,8 @@ where
 
 impl<K> Index<K> {
     pub fn read_state(&self) -> IndexReadGuard<'_, K> {
+        #[cfg(feature = "verif-hooks")]
+        crate::verif::before_read("read_state", crate::verif::LockId::State, &self.state);
         IndexReadGuard { inner: self.state.read() }
     }
 }
